@@ -12,7 +12,7 @@ CLAIMED["C01"] = (
     "Budget per case: 180 s wall / 2 GiB live heap for graphs up to 60 nodes / ~3 edges per node (measured worst case about 11 s). NetworkSimplex positioner only up to 16 nodes / 24 edges (documented as unsuitable beyond a few dozen nodes). Splines outside the spline-safe domain D_S are excluded by construction (known finding K3).")
 CLAIMED["C02"] = (
     "property-based testing (rapid): validity predicate on the returned node/edge multisets and sizes against the input and the size options",
-    BASE + "the oracle compares the returned ID multiset, edge multiset, per-node configured size (per-node > fixed > zero), self-loop routes and, with virtual output, the helper-node count against band spans.",
+    BASE + "the oracle compares the returned ID multiset, edge multiset, per-node configured size (per-node > fixed > zero), self-loop routes and, with virtual output, the helper-node count against band spans. A giant regime (one component of 130-1100 nodes, regular or random thin structure) runs the same oracle beyond the count thresholds small graphs never reach.",
     "With virtual-node output and user IDs that look like helper IDs the output cannot mark helpers (a todo in the source); there only what is decidable is asserted. K3 excluded.")
 CLAIMED["C03"] = (
     "property-based testing (rapid): band structure derived from returned Y coordinates; validity predicate (band spacing, no flat edge, upward <=> ArrowHeadStart, acyclic => no upward edge)",
@@ -31,16 +31,16 @@ CLAIMED["C06"] = (
     BASE + "each style's geometric contract is checked on every routed edge of generated drawings with heterogeneous widths and heights.",
     "Size-aware positioners, LayerSpacing > 0; splines only inside D_S (uniform heights), K3.")
 CLAIMED["C07"] = (
-    "property-based testing (rapid): repetition oracle (5 calls in-process on the same source and size map, DeepEqual, inputs compared with a snapshot) + per-case result digests compared between two fresh processes; thorough adds a native fuzz stage",
+    "property-based testing (rapid): repetition oracle (5 calls in-process on the same source and size map, DeepEqual, inputs compared with a snapshot) + per-case result digests compared between two fresh processes with different call histories (the second executes every other case and lays out each case's near-duplicate inputs - one width or spacing changed by 1e-9..0.005 - before instead of after it); thorough adds a native fuzz stage",
     BASE + "Go re-randomises map iteration on every range statement, so repetition samples iteration orders; every shard is additionally run twice in separate processes and the per-case SHA-256 digests are compared.",
     "Greedy+random excluded as the property states. A cross-process mismatch is reported with the case but replays only across two processes (./check C07 --replay runs the in-process oracle).")
 CLAIMED["C08"] = (
-    "property-based testing (rapid): metamorphic relation Layout(rename(G)) == rename(Layout(G)), exact, with renamings drawn from helper-like/empty/long/Unicode names",
+    "property-based testing (rapid): metamorphic relation Layout(rename(G)) == rename(Layout(G)), exact, with renamings drawn from helper-like/empty/long/Unicode names and from names composed of tokens and a separator (distinct ID pairs whose joined forms coincide)",
     BASE + "the relation needs no reference layout; helper-name collisions (V<n>, NE<i>) are generated on purpose and counted.",
     "Presupposes determinism (C07). Greedy+random is pinned through hook H1.")
 CLAIMED["C09"] = (
-    "property-based testing (rapid): metamorphic relation part-alone == restriction of the union modulo one horizontal translation; extents disjoint and NodeSpacing apart for size-aware positioners",
-    BASE + "disjoint unions of 2-4 connected parts are built with a drawn interleaving; every part is laid out alone and compared node by node, edge by edge, helper nodes as a multiset.",
+    "property-based testing (rapid): metamorphic relation part-alone == restriction of the union modulo one horizontal translation; extents (nodes and, for the piecewise-linear routings, route points) disjoint and NodeSpacing apart for size-aware positioners",
+    BASE + "disjoint unions of 2-4 connected parts are built with a drawn interleaving (rarely one part is a 33-44 node sparse component or a 201-230 node thin giant); every part is laid out alone and compared node by node, edge by edge, helper nodes as a multiset.",
     "Presupposes determinism (C07). X compared within 1e-9 relative (a shift is added), everything else exactly.")
 CLAIMED["C10"] = (
     "property-based testing (rapid): per-instance optimality certificate (max-weight closure via max-flow on the tight-edge graph, LP duality) + feasibility + band contiguity; certificate self-tested against brute force",
@@ -51,7 +51,7 @@ CLAIMED["C11"] = (
     BASE + "band of every node vs. independent memoised longest-path heights; number of bands vs. 1 + longest path.",
     "LayerSpacing > 0 (bands from Y).")
 CLAIMED["C12"] = (
-    "property-based testing (rapid): differential between the monitor's reported crossing count and a naive O(E^2) inversion count on the returned drawing; dedicated deep (>= 65 layers) and wide generators",
+    "property-based testing (rapid): differential between the monitor's reported crossing count and a naive O(E^2) inversion count on the returned drawing; dedicated deep (>= 65 layers) and wide generators; plus the counter itself (package-internal harness) against the naive count on arbitrary, non-minimised proper layerings (TestC12Counter)",
     BASE + "the reference count is taken from the output (node centres and polyline bends, by x-order per adjacent band pair), so it also checks that the chosen order survives positioning and routing.",
     "Simple graphs only, NodeSpacing > 0, LayerSpacing > 0, size-aware positioners, as stated. Geometric intersection is deliberately not the oracle (bends sit mid-band).")
 CLAIMED["C13"] = (
